@@ -3,9 +3,11 @@
 //! Runs random operation histories on the real `TrieBuf` (in-memory and file-backed), on a read-only
 //! `Trie` and on `Layered`, prints one transcript record per step (the whole history so far plus the
 //! queries asked and their answers; the Lean model replays the history) and evaluates the property
-//! itself against a reference map (`Ref`) — the ORACLE.  A failing observation is classified exactly:
-//! it is attributed to a known finding only if the observed answer equals what the known defect
-//! predicts (`Tracker::*_pred`) *and* the state is inside the finding's class; anything else is `new`.
+//! itself against a reference map (`Ref`) — the ORACLE.  Exact lookups and enumerations have no known
+//! finding left (F10 `UpdatePersisted` and `MaxCodePointPhrase` are fixed: any recurrence is `new`).  A
+//! failing *prefix* lookup is classified exactly: it is attributed to the known finding F36 only if the
+//! observed answer equals what the known defect predicts (`Tracker::candidates`) *and* the state is
+//! inside the finding's class; anything else is `new`.
 use chewing::dictionary::{
     Dictionary, DictionaryBuilder, DictionaryMut, Layered, LookupStrategy, Phrase, Trie, TrieBuf,
     TrieBuilder,
@@ -129,11 +131,6 @@ fn fuzzy_match(key: &[u16], q: &[u16]) -> bool {
         && key.iter().zip(q).all(|(a, b)| {
             *a != 0 && Syllable::try_from(*a).unwrap().starts_with(Syllable::try_from(*b).unwrap())
         })
-}
-
-/// `entries_iter_for` scans the pending tree up to the *exclusive* bound `MAX_PHRASE = "\u{10FFFF}"`
-fn beyond_max(t: &str) -> bool {
-    t >= "\u{10FFFF}"
 }
 
 /// The property's reference: a plain map.  `add` is rejected on a live key (as `TrieBuf` does).
@@ -275,55 +272,39 @@ impl Tracker {
             self.snap = self.file.clone();
         }
     }
-    /// class F10 `UpdatePersisted`: a live key that is both persisted and pending
-    fn shadowed(&self, pk: &PK) -> bool {
-        self.snap.contains_key(pk) && self.pending.contains_key(pk) && !self.grave.contains(pk)
-    }
+    /// coverage only (the states of the fixed finding F10): a live key that is both persisted and pending
     fn any_shadowed(&self) -> bool {
-        self.pending.keys().any(|pk| self.shadowed(pk))
+        self.pending.keys().any(|pk| self.snap.contains_key(pk) && !self.grave.contains(pk))
     }
-    /// candidates of `entries_iter_for(q)` in order; `with_f10 = false` drops a persisted candidate
-    /// that has a pending entry of the same key (what a merge by key would do)
-    fn candidates(&self, q: &[u16], fuzzy: bool, with_f10: bool) -> Vec<(String, Val)> {
+    /// candidates of `entries_iter_for(q)` in order (what the known defect F36 predicts for a prefix
+    /// lookup): the persisted phrases of the matching keys that have neither a tombstone nor a pending
+    /// entry *keyed by the query*, then the pending entries of exactly the query key
+    fn candidates(&self, q: &[u16], fuzzy: bool) -> Vec<(String, Val)> {
         let mut c = vec![];
         for ((key, t), v) in &self.snap {
             let m = if fuzzy { fuzzy_match(key, q) } else { key == q };
-            if m && !self.grave.contains(&(q.to_vec(), t.clone())) {
-                if !with_f10 && self.pending.contains_key(&(key.clone(), t.clone())) {
-                    continue;
-                }
+            let qk = (q.to_vec(), t.clone());
+            if m && !self.grave.contains(&qk) && !self.pending.contains_key(&qk) {
                 c.push((t.clone(), *v));
             }
         }
         for ((key, t), v) in &self.pending {
-            if key == q && !beyond_max(t) && !self.grave.contains(&(q.to_vec(), t.clone())) {
+            if key == q && !self.grave.contains(&(q.to_vec(), t.clone())) {
                 c.push((t.clone(), *v));
             }
         }
         c
     }
-    /// class `MaxCodePointPhrase`: a live pending phrase of `q` outside the scanned range
-    fn beyond_max_pending(&self, q: &[u16]) -> bool {
-        self.pending.keys().any(|(k, t)| k == q && beyond_max(t) && !self.grave.contains(&(k.clone(), t.clone())))
-    }
     /// class F36 `FuzzyOverTombstoneOrPending`: the pending tree or the graveyard holds a key other
-    /// than the query that matches it, or a tombstone of the query hides a persisted phrase of
-    /// another matching key
+    /// than the query that matches it, or a tombstone / a pending entry of the query hides a persisted
+    /// phrase of another matching key
     fn in_fuzzy_class(&self, q: &[u16]) -> bool {
         let other = |key: &Key| key != q && fuzzy_match(key, q);
+        let hides = |k: &Key, t: &String| k == q && self.snap.keys().any(|(k2, t2)| other(k2) && t2 == t);
         self.pending.keys().any(|(k, _)| other(k))
             || self.grave.iter().any(|(k, _)| other(k))
-            || self.grave.iter().any(|(k, t)| k == q && self.snap.keys().any(|(k2, t2)| other(k2) && t2 == t))
-    }
-    fn entries_pred(&self) -> Vec<(PK, Val)> {
-        let mut r: Vec<(PK, Val)> = vec![];
-        for (k, v) in self.snap.iter().chain(self.pending.iter()) {
-            if !self.grave.contains(k) {
-                r.push((k.clone(), *v));
-            }
-        }
-        r.sort();
-        r
+            || self.grave.iter().any(|(k, t)| hides(k, t))
+            || self.pending.keys().any(|(k, t)| hides(k, t))
     }
 }
 
@@ -385,15 +366,7 @@ fn check_triebuf(cx: &mut Ctx, kind: &str, d: &dyn Dictionary, r: &Ref, tr: &Tra
         let spec = r.of_key(k);
         let got = to_map(&all);
         if got.as_ref() != Some(&spec) {
-            let pred = dedup_max(tr.candidates(k, false, true));
-            let class = if got.as_ref() == Some(&pred) && spec.keys().any(|t| tr.shadowed(&(k.clone(), t.clone()))) {
-                "UpdatePersisted"
-            } else if got.as_ref() == Some(&pred) && tr.beyond_max_pending(k) {
-                "MaxCodePointPhrase"
-            } else {
-                "new"
-            };
-            cx.fail(class, format!("{kind} [{hist}] lookup {} standard: got {} expected(map) {:?}", key_s(k), obs_s(&all), spec));
+            cx.fail("new", format!("{kind} [{hist}] lookup {} standard: got {} expected(map) {:?}", key_s(k), obs_s(&all), spec));
         }
         // prefix lookup = union over the live keys matching the prefix
         let fall = lookup(d, k, usize::MAX, true);
@@ -404,16 +377,9 @@ fn check_triebuf(cx: &mut Ctx, kind: &str, d: &dyn Dictionary, r: &Ref, tr: &Tra
             None => false,
         };
         if !ok {
-            let pred = dedup_max(tr.candidates(k, true, true));
-            let pred_nof10 = dedup_max(tr.candidates(k, true, false));
-            let nof10_ok = pred_nof10.len() == fspec.len()
-                && pred_nof10.iter().all(|(t, v)| fspec.get(t).map_or(false, |vs| vs.contains(v)));
+            let pred = dedup_max(tr.candidates(k, true));
             let class = if fgot.as_ref() != Some(&pred) {
                 "new"
-            } else if nof10_ok && tr.any_shadowed() {
-                "UpdatePersisted"
-            } else if tr.beyond_max_pending(k) {
-                "MaxCodePointPhrase"
             } else if tr.in_fuzzy_class(k) {
                 "FuzzyOverTombstoneOrPending"
             } else {
@@ -448,8 +414,7 @@ fn check_triebuf(cx: &mut Ctx, kind: &str, d: &dyn Dictionary, r: &Ref, tr: &Tra
     got.sort();
     let spec: Vec<(PK, Val)> = r.m.iter().map(|(k, v)| (k.clone(), *v)).collect();
     if got != spec || !timed {
-        let class = if timed && got == tr.entries_pred() && tr.any_shadowed() { "UpdatePersisted" } else { "new" };
-        cx.fail(class, format!("{kind} [{hist}] entries: got {} expected(map) {:?}", ents_s(&ents), spec));
+        cx.fail("new", format!("{kind} [{hist}] entries: got {} expected(map) {:?}", ents_s(&ents), spec));
     }
 }
 
@@ -512,8 +477,8 @@ fn pools() -> Pools {
             vec![ce4], vec![ce], vec![c], vec![ce2], vec![shi4], vec![shi], vec![], vec![ce4, shi4, ce], vec![c, shi, c],
             vec![ce4, shi4], vec![ce, shi], vec![c, shi], vec![ce4, shi], vec![ce2, shi4], vec![c, sh],
         ],
-        texts1: vec!["測", "冊", "a", "é", "𠀀"],
-        texts2: vec!["測試", "冊試", "ab", "測a", "𠀀é"],
+        texts1: vec!["測", "冊", "a", "é", "𠀀", "\u{10FFFF}"],
+        texts2: vec!["測試", "冊試", "ab", "測a", "𠀀é", "\u{10FFFF}é"],
     }
 }
 
@@ -949,22 +914,19 @@ fn run_layered(cx: &mut Ctx, p: &Pools, rng: &mut Rng, len: usize, file: bool) {
                         dup |= got.insert(t.clone(), *f).is_some();
                     }
                     if dup || got != want {
-                        // what the known defects of the TrieBuf layers predict (`with_f10 = false`: with the
-                        // persisted duplicate of a pending key dropped, as a merge by key would do)
-                        let pred_of = |with_f10: bool| -> BTreeMap<String, u32> {
-                            let mut c: Vec<(String, Val)> = a_tr.candidates(k, fz, true);
+                        // what the known defect F36 of the TrieBuf layers predicts
+                        let pred: BTreeMap<String, u32> = {
+                            let mut c: Vec<(String, Val)> = a_tr.candidates(k, fz);
                             for ((key, t), v) in &b_ref {
                                 if m(key) {
                                     c.push((t.clone(), (v.0, 0)));
                                 }
                             }
-                            c.extend(u_tr.candidates(k, fz, with_f10));
+                            c.extend(u_tr.candidates(k, fz));
                             dedup_max(c).into_iter().map(|(t, v)| (t, v.0)).collect()
                         };
-                        let class = if dup || got != pred_of(true) {
+                        let class = if dup || got != pred {
                             "new"
-                        } else if pred_of(false) == want && u_tr.any_shadowed() {
-                            "UpdatePersisted"
                         } else if fz && (a_tr.in_fuzzy_class(k) || u_tr.in_fuzzy_class(k)) {
                             "FuzzyOverTombstoneOrPending"
                         } else {
@@ -1038,7 +1000,8 @@ fn main() {
         ];
         guarded(&mut cx, "F09 witness", |cx| run_triebuf(cx, &p, &mut Rng::new(1), file, Some((vec![ce4.clone(), c.clone()], s)), 0));
     }
-    // F10 (known, class UpdatePersisted): update an entry that is already in the persisted snapshot
+    // F10 (fixed by 8e6d504; was class UpdatePersisted): update an entry that is already in the persisted
+    // snapshot -> looked up with the new value, enumerated once
     let s = vec![
         Op::Add(ce4.clone(), "測".into(), 100, Some(2)),
         Op::Flush,
@@ -1056,8 +1019,12 @@ fn main() {
         Op::Add(ce4.clone(), "冊".into(), 1, Some(1)),
     ];
     guarded(&mut cx, "F36 witness", |cx| run_triebuf(cx, &p, &mut Rng::new(1), true, Some((vec![ce4.clone(), c.clone()], s)), 0));
-    // MaxCodePointPhrase (known): a pending phrase beginning with U+10FFFF is enumerated but never looked up
-    let s = vec![Op::Add(ce4.clone(), "\u{10FFFF}".into(), 1, Some(0))];
+    // MaxCodePointPhrase (fixed by 2c45871): a pending phrase beginning with U+10FFFF is looked up like any other
+    let s = vec![
+        Op::Add(ce4.clone(), "\u{10FFFF}".into(), 1, Some(0)),
+        Op::Add(ce4.clone(), "\u{10FFFF}".into(), 2, Some(0)),
+        Op::Add(ce4.clone(), "\u{10FFFF}測".into(), 3, Some(1)),
+    ];
     guarded(&mut cx, "MaxCodePointPhrase witness", |cx| run_triebuf(cx, &p, &mut Rng::new(1), false, Some((vec![ce4.clone()], s)), 0));
     // F11 (fixed by 4e93dec): first n of a 4-phrase leaf
     let es: Vec<E> = ["測", "冊", "a", "é"].iter().map(|t| (ce4.clone(), t.to_string(), 1u32, None)).collect();
